@@ -5,65 +5,55 @@
    high watermarks >= 0, both poll orders: in a quiescent state (I/O thread asleep in
    select, every worker parked on queue_cv or on outbuf_lock's condition) there is no
    undelivered output, no unserviced request or unread client data, no parked producer,
-   and a pending close has been carried out -- outside the class of the one open finding
-   (the flush of a worker-side send_continue raises), which is refuted by a concrete schedule.
-   C05_partial_stuck: the same for "no thread can move at all" (no deadlock on the two
-   locks).  C05_app_partial: the same when workers may also sit inside the application, with
-   "fewer than send_bytes bytes pending" in place of "no pending output".
-   (Earlier exclusions -- outbuf_high_watermark = 0, a producer starting to wait after
-   handle_close, send_bytes above the watermark, the unlocked flush of the I/O thread -- were
-   findings of this check that have been repaired in /repo; the theorems now cover them.) *)
+   and a pending close has been carried out.  FULL strength: no class of runs is excluded.
+   C05_stuck: the same for "no thread can move at all" (no deadlock on the two locks).
+   C05_app: the same when workers may also sit inside the application, with "fewer than
+   send_bytes bytes pending" in place of "no pending output".
+   (Exclusions of earlier versions -- the I/O thread's unlocked flush, outbuf_high_watermark =
+   0, a producer starting to wait after handle_close, send_bytes above the watermark, a send
+   error inside the worker-side send_continue -- were findings of this check that have been
+   repaired in /repo: 8bcf05e 6aba4bf 7fa6a60 daf1a85 48f7fa0.) *)
 From Coq Require Import List ZArith Bool.
 From WV Require Import Lib.Conc Model.ChanWake Proof.ChanWakeInv Proof.ChanWake Proof.ChanWakeWitness.
 Import ListNotations.
 Open Scope Z_scope.
 
 Theorem C05_invariant : forall c nw sched,
-  0 <= hw c -> (0 < nw)%nat -> taint (runc c nw sched) = false -> Inv c (runc c nw sched).
+  0 <= hw c -> (0 < nw)%nat -> Inv c (runc c nw sched).
 Proof. exact inv_reachable. Qed.
 Print Assumptions C05_invariant.
 
-Theorem C05_partial : forall c nw sched,
+Theorem C05 : forall c nw sched,
   0 <= hw c -> (0 < nw)%nat ->
   quiescent_parked (runc c nw sched) = true ->
-  in_kf_class (runc c nw sched) = false ->
   c05_ok (runc c nw sched) = true.
-Proof. exact c05_partial. Qed.
-Print Assumptions C05_partial.
+Proof. exact c05_full. Qed.
+Print Assumptions C05.
 
 (* for the widest notion of quiescence -- no thread of the server can move at all: then nobody
    is stuck on a lock (no deadlock), every worker is parked, and the predicate holds *)
-Theorem C05_partial_stuck : forall c nw sched,
+Theorem C05_stuck : forall c nw sched,
   0 <= hw c -> (0 < nw)%nat ->
   quiescent (runc c nw sched) = true ->
-  in_kf_class (runc c nw sched) = false ->
   quiescent_parked (runc c nw sched) = true /\ c05_ok (runc c nw sched) = true.
-Proof. exact c05_partial_stuck. Qed.
-Print Assumptions C05_partial_stuck.
+Proof. exact c05_stuck. Qed.
+Print Assumptions C05_stuck.
 
 (* workers may also sit inside the application (a streaming application that waits for its
    consumer): then at most send_bytes - 1 bytes are left unsent (0 for the default send_bytes = 1) *)
-Theorem C05_app_partial : forall c nw sched,
+Theorem C05_app : forall c nw sched,
   0 <= hw c -> (0 < nw)%nat ->
   quiescent_app (runc c nw sched) = true ->
-  in_kf_class (runc c nw sched) = false ->
   app_ok c (runc c nw sched) = true.
-Proof. exact c05_app_partial. Qed.
-Print Assumptions C05_app_partial.
+Proof. exact c05_app. Qed.
+Print Assumptions C05_app.
 
-Theorem C05_partial_unfolded : forall c nw sched s,
+Theorem C05_unfolded : forall c nw sched s,
   0 <= hw c -> (0 < nw)%nat -> s = runc c nw sched ->
-  quiescent_parked s = true -> taint s = false ->
+  quiescent_parked s = true ->
   (closed s = false -> total s = 0 /\ pend s = 0) /\
   (closed s = false -> nreq s = 0%nat /\ queue s = 0%nat /\ rx s = []) /\
   (forall j p, nth_error (ws s) j = Some p -> parked_o p = false) /\
   (wc s = true \/ cwf s = true -> closed s = true).
-Proof. exact c05_partial_unfolded. Qed.
-Print Assumptions C05_partial_unfolded.
-
-Theorem C05_refuted_continue_raises :
-  exists c nw sched, 0 <= hw c /\
-    let s := run (step c) (init nw) sched in
-    quiescent_parked s = true /\ taint s = true /\ no_pending_output s = false.
-Proof. exact refuted_continue_raises. Qed.
-Print Assumptions C05_refuted_continue_raises.
+Proof. exact c05_unfolded. Qed.
+Print Assumptions C05_unfolded.
